@@ -173,6 +173,10 @@ func TestC09(t *testing.T) {
 							res.Violatef("Callback returned another callback's reply", in, "%s; log: %s", e, shortLog(r.Log))
 						}
 						obs = append(obs, id+"=reply:2")
+					case strings.Contains(got, "invalid error value") || strings.HasPrefix(got, "err:[0]"):
+						// the client reported a failure with an error member that is not an error object:
+						// still a failure reply, surfaced as an *Error
+						obs = append(obs, id+"=reply:2")
 					default:
 						obs = append(obs, id+"=ctx")
 					}
@@ -218,7 +222,11 @@ func TestC09(t *testing.T) {
 				case 2: // a notification handler that awaits a callback; a later call must wait for it, the reply must still get through
 					ops = append(ops, envOp{Kind: "send", Arg: reqNote(fmt.Sprintf("n%d", 100+k), "cb:"+tag)}, envOp{Kind: "send", Arg: reqCall(200+k, fmt.Sprintf("c%d", 200+k), "ok")})
 				}
-				switch rng.Intn(5) {
+				switch rng.Intn(7) {
+				case 5:
+					ops = append(ops, envOp{Kind: "cbreplybad", Arg: tag})
+				case 6:
+					ops = append(ops, envOp{Kind: "cbreply", Arg: tag}, envOp{Kind: "cbreplybad", Arg: tag}) // a late, malformed failure report
 				case 0:
 					ops = append(ops, envOp{Kind: "cbreply", Arg: tag})
 				case 1:
@@ -254,6 +262,8 @@ func TestC09(t *testing.T) {
 			{Concurrency: 2, AllowPush: true, Ops: []envOp{{Kind: "callback", Arg: "k1"}, {Kind: "cbcancel", Arg: "k1"}, {Kind: "send", Arg: reqCall(1, "Hc1", "ok")}, {Kind: "reply", Arg: `{"jsonrpc":"2.0","id":1,"result":"late"}`}}},
 			{Concurrency: 2, AllowPush: true, Ops: []envOp{{Kind: "callback", Arg: "k1"}, {Kind: "cbreply", Arg: "k1"}, {Kind: "send", Arg: reqCall(1, "Hc1", "ok")}, {Kind: "cbreply", Arg: "k1"}}},
 			{Concurrency: 2, AllowPush: true, Ops: []envOp{{Kind: "callback", Arg: "k1"}, {Kind: "stop"}}},
+			{Concurrency: 2, AllowPush: true, Ops: []envOp{{Kind: "callback", Arg: "k1"}, {Kind: "cbreplybad", Arg: "k1"}}},
+			{Concurrency: 2, AllowPush: true, Ops: []envOp{{Kind: "callback", Arg: "k1"}, {Kind: "cbreply", Arg: "k1"}, {Kind: "send", Arg: reqCall(1, "Hc1", "ok")}, {Kind: "cbreplybad", Arg: "k1"}}},
 			{Concurrency: 2, AllowPush: false, Ops: []envOp{{Kind: "callback", Arg: "k1"}, {Kind: "notify", Arg: "p1"}, {Kind: "send", Arg: reqCall(100, "c100", "cb:k2")}}},
 			{Concurrency: 2, AllowPush: true, Ops: []envOp{{Kind: "send", Arg: reqNote("n100", "cb:k1")}, {Kind: "send", Arg: reqCall(200, "c200", "ok")}, {Kind: "cbreply", Arg: "k1"}}},
 		}
